@@ -397,6 +397,22 @@ class Check(PropertyCheck):
             if D.rdata_class(self.layout, t, unhx(d)) == "ptr": return False
         return True
 
+    def _wf_ascii(self, case):
+        """Python twin of Model/C25.lean `wellFormedAscii` (no idna codec involved; record data by the code's layout table,
+        as the Lean predicate uses the generated table)"""
+        def ascii_name(h):
+            t = unhx(h)
+            if not t: return True
+            return all(0 < len(p) < 64 and all(c < 128 for c in p) and b"xn--" not in p for p in t.split(b"."))
+        h = case["hdr"]
+        lay = D.code_layout()
+        rrs = case["an"] + case["ns"] + case["ar"]
+        return (h[0] <= U16 and h[2] <= 15 and h[7] <= 7 and h[8] <= 15
+                and all(len(case[k]) <= U16 for k in ("q", "an", "ns", "ar"))
+                and all(ascii_name(n) and t <= U16 and cl <= U16 for n, t, cl in case["q"])
+                and all(ascii_name(n) and t <= U16 and cl <= U16 and ttl <= U32 and len(unhx(d)) <= U16 and D.rdata_plain(lay, t, unhx(d))
+                        for n, t, cl, ttl, d in rrs))
+
     def oracle(self, case, obs):
         fails = []
         for k in ("r", "packed", "back"):
@@ -554,7 +570,8 @@ class Check(PropertyCheck):
             # the model encodes the message and decodes ITS OWN bytes; only the idna table is taken from the real codec
             bufs = [unhx(obs["packed"])] if obs["packed"] != "err" else []
             tbl = D.idna_table(bufs, list(self._names(obs["msg"])))
-            return [f"rt {tbl} {D.render_case_msg(case)}"]
+            # + the codec-free well-formedness predicate of `roundtrip_ascii` against its Python twin
+            return [f"rt {tbl} {D.render_case_msg(case)}", f"wfascii {D.render_case_msg(case)}"]
         if op == "bytes":
             # decode, re-encode, decode again: all three predicted by the model from the input bytes alone
             bufs = [unhx(case["buf_hex"])]
@@ -576,7 +593,7 @@ class Check(PropertyCheck):
         if any(str(v).startswith("exc:") for v in obs.values()): return ["exc"]
         ok = lambda v: "err" if v == "err" else "ok " + v
         if case["op"] == "msg":
-            return [" | ".join([ok(obs["packed"])] + ([obs["back"]] if "back" in obs else []))]
+            return [" | ".join([ok(obs["packed"])] + ([obs["back"]] if "back" in obs else [])), "1" if self._wf_ascii(case) else "0"]
         if case["op"] == "bytes":
             out = [obs["r"]]
             if "packed" in obs: out.append(ok(obs["packed"]))
